@@ -6,7 +6,8 @@ With w = -T dV/dT (enthalpy outside a minimum), K = 1/2 sum (d phi/dz)^2, V the 
   * every (T, v) returned by findPlasmaProfilePoint with T > 0 reproduces the two boundary constants:
       w g^2 v + Tout30 == c1 ,  K - V + w g^2 v^2 + Tout33 == c2      (known finding F6 on the no-root branch);
   * findPlasmaProfile: success flag <=> every point returned T > 0 (bounded: 3 grid points);
-  * far from the wall (uniform field, no moments) the hydrodynamic values (T+, -v+) and (T-, -v-) solve the point equations.
+  * far from the wall (uniform field, no moments) the hydrodynamic values (T+, -v+) and (T-, -v-) solve the point equations;
+  * deltaToTmunu (taken by contract in the point equations) is the boosted integral of p^mu p^nu delta f (obligations shared with C13).
 """
 from __future__ import annotations
 
@@ -77,6 +78,10 @@ def build(chk):
     c_point(chk)
     c_profile(chk)
     c_boundary(chk)
+    # the contract of deltaToTmunu that c_point assumes (Tout30, Tout33 are the 30 and 33 components of the out-of-equilibrium
+    # stress tensor) is discharged here as well: a change inside it breaks THIS property too (same obligations as C13)
+    from .C13_moments import c_tmunu
+    c_tmunu(chk)
 
 
 def c_velocity(chk):
